@@ -157,7 +157,7 @@ static inline int path_compare_node(const char *a, const char *b)
 static inline const char *path_remove_prefix(const char *path,
                                              const char *prefix)
 {
-    while (*prefix != 0 || *path != 0)
+    while (*prefix != 0 && *path != 0)
     {
         int cmp = path_compare_node(path, prefix);
 
